@@ -125,3 +125,12 @@ def register(add, NOTE):
         "parser); column agreement and per-table formats are checked by re-reading every number of real reports. Known finding: V/m table layout.",
         "Rocq proof (decimal rounding / truncation arithmetic over N and R) + character-wise vm_compute correspondence + report re-reading oracle",
         "DESIGN.md §6 C19", note=NOTE + PART)
+    add("C15",
+        "Theorem (all pulse layouts, all attachment lists in any order and multiplicity, both addressing forms): the attachment options written "
+        "for a load, with the 'all pulses of an object' / 'all pulses' abbreviations, are accepted by the reader and put the load on the same "
+        "pulses with the same multiplicities (permutation); the pre-repair criterion is shown insufficient by a witness. Tie: stage `cmd` "
+        "compares the model's written attachments and re-read pulses with the real writer and the real re-read model for every lumped load of "
+        "generated command lines. PARTIAL: objects with tags, tapering, transformations, sources, media and load parameters are not modelled; "
+        "the oracle runs write -> main -> write on the real code and compares descriptions, feed impedance and the second writing.",
+        "Rocq proof (attachment writer/reader, counting argument) + vm_compute correspondence + write/read/write oracle on the real code",
+        "DESIGN.md §6 C15", note=NOTE + PART)
